@@ -62,14 +62,14 @@ Lemma tail_run : forall e tk exc se,
   cwd (fst r) = cwd se /\ path (fst r) = path se /\
   (mem_n (e_hook e) (meta se) = true -> meta (fst r) = remove_first_n (e_hook e) (meta se)) /\
   (mem_n (e_hook e) (meta se) = true -> callable e se = true ->
-     mods (fst r) = filter (fun m => is_plain (snd m)) (mods se)) /\
+     mods (fst r) = filter (fun m => purge_keep (rel_recognised e se) (snd m)) (mods se)) /\
   (mem_n (e_hook e) (meta se) = true -> callable e se = true -> get k_saved_showwarning se <> None ->
      get k_showwarning (fst r) = get k_showwarning (uncap tk se) /\
      get k_saved_showwarning (fst r) = get k_saved_showwarning (uncap tk se)).
 Proof.
   intros e tk exc se. unfold tail_steps.
   assert (P : forall s, run_fstep e tk FPurgeModules s =
-                        if callable e s then Some (with_mods (filter (fun m => is_plain (snd m)) (mods s)) s) else None)
+                        if callable e s then Some (with_mods (filter (fun m => purge_keep (rel_recognised e s) (snd m)) (mods s)) s) else None)
     by reflexivity.
   assert (Q : forall s, run_fstep e tk FMetaRemove s =
                         if mem_n (e_hook e) (meta s) then Some (with_meta (remove_first_n (e_hook e) (meta s)) s) else None)
@@ -80,7 +80,7 @@ Proof.
     rewrite (run_fsteps_cons_some e tk FMetaRemove _ exc se sm E1).
     assert (C : callable e sm = callable e se) by reflexivity.
     destruct (callable e se) eqn:CA.
-    + set (sq := with_mods (filter (fun m => is_plain (snd m)) (mods sm)) sm).
+    + set (sq := with_mods (filter (fun m => purge_keep (rel_recognised e sm) (snd m)) (mods sm)) sm).
       assert (E2 : run_fstep e tk FPurgeModules sm = Some sq) by (rewrite P, C; reflexivity).
       rewrite (run_fsteps_cons_some e tk FPurgeModules _ exc sm sq E2).
       destruct (run_fstep e tk FUncapture sq) as [su|] eqn:E3.
@@ -200,6 +200,7 @@ Proof.
 Qed.
 
 Lemma abspath_in_outer : In k_abspath outer_keys. Proof. apply kmem_In. vm_compute. reflexivity. Qed.
+Lemma getcwd_in_outer : In k_getcwd outer_keys. Proof. apply kmem_In. vm_compute. reflexivity. Qed.
 Lemma chdir_in_outer : In k_chdir outer_keys. Proof. apply kmem_In. vm_compute. reflexivity. Qed.
 Lemma exit_in_inner : In k_exit inner_keys. Proof. apply kmem_In. vm_compute. reflexivity. Qed.
 Lemma cythonize_in_misc : In k_cythonize misc_keys. Proof. right; right; left; reflexivity. Qed.
@@ -251,7 +252,7 @@ Lemma exit_phase : forall e tk ot exc sp,
     cwd s' = cwd sp /\ path s' = t_saved_path tk /\
     (mem_n (e_hook e) (meta sp) = true -> meta s' = remove_first_n (e_hook e) (meta sp)) /\
     (mem_n (e_hook e) (meta sp) = true -> callable e sp = true ->
-       mods s' = filter (fun m => is_plain (snd m)) (mods sp)).
+       mods s' = filter (fun m => purge_keep (rel_recognised e sp) (snd m)) (mods sp)).
 Proof.
   intros e tk ot exc sp NDo Io NDi Ii Hb.
   destruct (finally_run e tk exc sp Hb) as (se & Vb & Fe & Ce & Me & De & Pe & RunE).
@@ -317,5 +318,10 @@ Proof.
   pose proof (f_equal (fun x => snd x) R') as Hd; cbn in Hd.
   split; [congruence|]. split; [congruence|]. split.
   - intros M. rewrite Hm. rewrite <- Me in M. rewrite (Mf M). rewrite Me. reflexivity.
-  - intros M C. rewrite Hd. rewrite <- Me in M. rewrite <- CA in C. rewrite (Df M C). rewrite De. reflexivity.
+  - intros M C. rewrite Hd. rewrite <- Me in M. rewrite <- CA in C. rewrite (Df M C). rewrite De.
+    assert (RR : rel_recognised e se = rel_recognised e sp).
+    { unfold rel_recognised. rewrite (Fe k_abspath), (Fe k_getcwd); [reflexivity| |].
+      - intros [X|X]; [discriminate|]. exact (begin_not_outer _ X getcwd_in_outer).
+      - intros [X|X]; [discriminate|]. exact (begin_not_outer _ X abspath_in_outer). }
+    rewrite RR. reflexivity.
 Qed.
